@@ -434,9 +434,25 @@ def fix_unconventional_class_definitions(source: str) -> str:
 
     transaction = 0
     root = core.parse(source)
+    # Objects with a __set_name__ method are told when a class body binds them
+    file_defines_set_name = any(
+        core.walk(
+            root,
+            (
+                ast.FunctionDef(name="__set_name__"),
+                ast.Name(id="__set_name__", ctx=ast.Store),
+                ast.Attribute(attr="__set_name__", ctx=ast.Store),
+    ),))
+
     for (classdef, *_), *assign_matches in core.walk_sequence(root, *template, expand_last=True):
         transaction += 1
         new_assigns = []
+        # What the class body binds goes through the metaclass, which may treat it in its own way
+        # (the members of an Enum). Setting an attribute afterwards does not.
+        if classdef.keywords or not all(
+            core.match_template(base, ast.Name(id="object")) for base in classdef.bases
+        ):
+            continue
         # In the class body, the class does not exist yet, and names bound there hide the globals.
         class_body_names = {classdef.name}
         class_body_names.update(name.id for name in core.walk(classdef, ast.Name(ctx=ast.Store)))
@@ -449,6 +465,12 @@ def fix_unconventional_class_definitions(source: str) -> str:
             attr = assign.targets[0].attr
             if attr.startswith("__") and not attr.endswith("__"):
                 break  # would be mangled in the class body
+            if attr.startswith("__"):
+                # type() looks at these when it creates the class: __eq__ in the body removes
+                # __hash__, __slots__ changes the layout, __init_subclass__ becomes a classmethod
+                break
+            if file_defines_set_name and any(core.walk(assign.value, ast.Call)):
+                break
             if any(name.id in class_body_names for name in core.walk(assign.value, ast.Name)):
                 break
             class_body_names.add(attr)
